@@ -10,7 +10,8 @@ integers, strings of every kind and constraint, lists, inline extensible SEQUENC
 ENUMERATED), CHOICE chains whose root and extension alternatives are of any kind. Each version is its
 own ASN.1 module with the same type names; the containers put data BEHIND the evolving type.
 
-usage: tools/gen_rchains.py <first-chain-number> <count> <python-seed> [versions]
+usage: tools/gen_rchains.py <first-chain-number> <count> <python-seed> [versions] [tagchoice]
+  tagchoice: CHOICE chains whose alternatives carry explicit, scrambled tags, plus the role InSet
 """
 import os, random, sys
 sys.path.insert(0, os.path.dirname(os.path.abspath(__file__)))
@@ -19,8 +20,14 @@ from gen_zoo import G
 ZOO = os.path.join(os.path.dirname(os.path.dirname(os.path.abspath(__file__))), "sim", "zoo")
 
 
-def containers(chain, ver, flags):
-    return f"""  Wrap ::= SEQUENCE {{ m Msg, tail INTEGER (0..255) }}          -- @chain={chain}.Wrap:{ver}{flags}
+def containers(chain, ver, flags, inset=False):
+    extra = ""
+    if inset:
+        # the evolving type as an UNTAGGED component of a SET with explicit tags: its position in the SET's
+        # canonical order comes from the tag the compiler resolves for it, which must not change when a
+        # version appends something (e.g. an extension alternative with a small tag to a CHOICE)
+        extra = f"  InSet ::= SET {{ a [5] INTEGER (0..255), m Msg, z [30] BOOLEAN, ..., y [7] INTEGER (0..7) OPTIONAL }}   -- @chain={chain}.InSet:{ver}{flags}\n"
+    return extra + f"""  Wrap ::= SEQUENCE {{ m Msg, tail INTEGER (0..255) }}          -- @chain={chain}.Wrap:{ver}{flags}
   Many ::= SEQUENCE (SIZE(0..3)) OF Msg                          -- @chain={chain}.Many:{ver}{flags}
   Opt ::= SEQUENCE {{ pre BOOLEAN, m Msg OPTIONAL, post UTF8String (SIZE(0..5)) }}   -- @chain={chain}.Opt:{ver}{flags}
 """
@@ -28,13 +35,28 @@ def containers(chain, ver, flags):
 
 def main():
     first, count, seed = int(sys.argv[1]), int(sys.argv[2]), int(sys.argv[3])
-    versions = int(sys.argv[4]) if len(sys.argv) > 4 else 5
+    versions = int(sys.argv[4]) if len(sys.argv) > 4 and sys.argv[4].isdigit() else 5
+    tagged_choice = "tagchoice" in sys.argv[4:]
     for k in range(first, first + count):
         g = G(seed * 1000 + k, "X")
         r = g.r
-        kind = r.choice(["SEQUENCE", "SEQUENCE", "SET", "CHOICE"])
+        kind = "CHOICE" if tagged_choice else r.choice(["SEQUENCE", "SEQUENCE", "SET", "CHOICE"])
         amp = False
-        if kind == "CHOICE":
+        if kind == "CHOICE" and tagged_choice:
+            # alternatives with explicit context tags in scrambled order; later alternatives often get SMALLER
+            # tags than the root ones
+            nroot = r.choice([1, 2, 3])
+            tags = r.sample(range(8, 30), nroot) + r.sample(range(0, 8), versions - 1)
+            if r.randrange(2) == 0:
+                r.shuffle(tags)
+            root, adds = [], []
+            for i in range(nroot + versions - 1):
+                t, _ = g.field_type(1)
+                while t.startswith("CHOICE") or t == "NULL":
+                    t, _ = g.field_type(1)
+                amp = amp or g.info[t][1]
+                (root if i < nroot else adds).append(f"{'r' if i < nroot else 'x'}{i} [{tags[i]}] {t}")
+        elif kind == "CHOICE":
             nroot = r.choice([1, 2, 3, 5])
             root = []
             for i in range(nroot):
@@ -67,7 +89,7 @@ def main():
                 adds.append(f"x{i} {tag(nroot + i)}{t}{suffix}")
         flags = " @zeroamp" if amp else ""
         for v in range(versions):
-            body = f"  Msg ::= {kind} {{ " + ", ".join(root + ["..."] + adds[:v]) + f" }}     -- @chain=r{k}.Msg:{v}{flags}\n" + containers(f"r{k}", v, flags)
+            body = f"  Msg ::= {kind} {{ " + ", ".join(root + ["..."] + adds[:v]) + f" }}     -- @chain=r{k}.Msg:{v}{flags}\n" + containers(f"r{k}", v, flags, inset=tagged_choice)
             with open(os.path.join(ZOO, f"rchain_{k}_v{v}.asn1"), "w") as f:
                 f.write(f"-- generated by tools/gen_rchains.py (chain {k}, seed {seed}); do not edit\nRchain{k}V{v} DEFINITIONS AUTOMATIC TAGS ::= BEGIN\n{body}END\n")
         print(f"rchain_{k}: {kind}, {nroot} root, {versions} versions{flags}")
